@@ -14,14 +14,14 @@ ASSUMPTIONS = [
 
 
 def c1(ctx):
-    serial.table_spec(ctx)
+    serial.table_spec(ctx, 'sm')
     serial.smchart_writer_fields(ctx)
     serial.sm_chart_reader(ctx)
 
 
 def c3(ctx):
     serial.writer_item_loop(ctx, serial.BASE_SERIALIZE, notes_exempt=False)
-    serial.reader_multi(ctx, 'sm')
+    serial.reader_multi(ctx, 'sm', raw_key_ok=True)
 
 
 def c5(ctx):
